@@ -272,6 +272,9 @@ def build(call, conc):
             kw["fail_threshold"] = rat(p["ft"], unit)
         return qartod.density_inversion_test, kw
     if fn == "press":
+        if c.get("via") == "gliders":
+            from ioos_qc import gliders           # the deprecated alias must give the same flags
+            return gliders.pressure_check, {"inp": X()}
         return argo.pressure_increasing_test, {"inp": X()}
     if fn == "loc":
         half = lambda v: v * 0.5  # noqa: E731
